@@ -185,11 +185,15 @@ package listz
 //@   ensures (old(e.list) == l && e != mark && old(mark.list) == l) ==> (e.prev == mark && mark.next == e)
 
 // ---------------------------------------------------------------------------------------------------------------
-// SList: head/tail/len. Only the constant-time operations are under contract: the index walks (Get, Remove,
-// InsertNodeAt, Swap, RemoveFront's successor) need the whole chain as a ghost sequence, which these contracts do not
-// carry; they are decided by the bounded harness (all short histories against a slice model).
+// SList: the list is a SEQUENCE of nodes. Ghost field nodes holds it (nodes[0..len) are the nodes from head to tail);
+// every operation is specified by its effect on that sequence (insert / delete at an index, element-wise), so that
+// Front, Back, Len, Get and Next-traversal are consistent by construction of the invariant sSeq.
 // ---------------------------------------------------------------------------------------------------------------
-//@ spec sEnds(l ref) bool = l != nil && l.len >= 0 && (l.len == 0 ==> (l.head == nil && l.tail == nil)) && (l.len > 0 ==> (l.head != nil && l.tail != nil && l.tail.next == nil))
+//@ ghostfield SList.nodes seq
+//@ spec sNext(p int) int = cast(SNode, p).next
+//@ spec sSeq(l ref) bool = l != nil && l.len >= 0 && (forall k in 0..l.len: l.nodes[k] != nil && allocated(l.nodes[k])) && (forall k in 0..l.len-1: sNext(l.nodes[k]) == l.nodes[k+1]) && (l.len == 0 ==> (l.head == nil && l.tail == nil)) && (l.len > 0 ==> (l.head == l.nodes[0] && l.tail == l.nodes[l.len-1] && sNext(l.nodes[l.len-1]) == nil)) && (forall a in 0..l.len: forall b in 0..l.len: a < b ==> l.nodes[a] != l.nodes[b])
+// e is a node that is not in the list
+//@ spec sNew(l ref, e ref) bool = e != nil && forall k in 0..l.len: l.nodes[k] != e
 
 //@ func SNode.Next
 //@   inline
@@ -201,36 +205,102 @@ package listz
 //@   inline
 
 //@ func NewSingly
-//@   ensures fresh(result) && result.head == nil && result.tail == nil && result.len == 0
+//@   ensures fresh(result) && sSeq(result) && result.len == 0
 
 //@ func SList.withinRange
 //@   noalloc
 //@   requires l != nil
 //@   ensures result == (index >= 0 && index < l.len)
 
+//@ func SList.Get
+//@   noalloc
+//@   requires sSeq(l)
+//@   ensures result == ite(0 <= i && i < l.len, l.nodes[i], nil)
+//@   loop 1:
+//@     invariant 0 <= index && index <= i && i < l.len && e == l.nodes[index]
+//@     decreases i - index
+
 //@ func SList.PushFrontNode
 //@   noalloc
-//@   requires sEnds(l) && e != nil && e != l.tail && l.len < 9223372036854775807
-//@   modifies e.next, l.head, l.tail, l.len
-//@   ensures sEnds(l) && l.head == e && e.next == old(l.head) && l.len == old(l.len) + 1 && l.tail == ite(old(l.len) == 0, e, old(l.tail))
+//@   ghost n0 = l.nodes
+//@   requires sSeq(l) && sNew(l, e) && l.len < 9223372036854775807
+//@   modifies e.next, l.head, l.tail, l.len, l.nodes
+//@   ensures sSeq(l) && l.len == old(l.len) + 1 && l.nodes[0] == e && forall k in 0..old(l.len): l.nodes[k+1] == n0[k]
+//@   at end:
+//@     ghost l.nodes = seqdef k: ite(k == 0, e, n0[k-1])
 
 //@ func SList.PushBackNode
 //@   noalloc
-//@   requires sEnds(l) && e != nil && e != l.tail && e.next == nil && l.len < 9223372036854775807
-//@   modifies l.tail.next, l.head, l.tail, l.len
-//@   ensures sEnds(l) && l.tail == e && l.len == old(l.len) + 1 && l.head == ite(old(l.len) == 0, e, old(l.head))
-//@   ensures old(l.len) > 0 ==> old(l.tail).next == e
+//@   ghost n0 = l.nodes
+//@   requires sSeq(l) && sNew(l, e) && e.next == nil && l.len < 9223372036854775807
+//@   modifies anyof(SNode.next), l.head, l.tail, l.len, l.nodes
+//@   ensures sSeq(l) && l.len == old(l.len) + 1 && l.nodes[old(l.len)] == e && forall k in 0..old(l.len): l.nodes[k] == n0[k]
+//@   at end:
+//@     ghost l.nodes = store(n0, l.len - 1, e)
 
 //@ func SList.PushFront
-//@   requires sEnds(l) && l.len < 9223372036854775807
-//@   modifies l.head, l.tail, l.len
-//@   ensures sEnds(l) && fresh(l.head) && l.head.Value == v && l.head.next == old(l.head) && l.len == old(l.len) + 1
+//@   ghost n0 = l.nodes
+//@   requires sSeq(l) && l.len < 9223372036854775807
+//@   modifies l.head, l.tail, l.len, l.nodes
+//@   ensures sSeq(l) && l.len == old(l.len) + 1 && fresh(l.head) && l.head.Value == v && forall k in 0..old(l.len): l.nodes[k+1] == n0[k]
 
 //@ func SList.PushBack
-//@   requires sEnds(l) && l.len < 9223372036854775807
-//@   modifies l.tail.next, l.head, l.tail, l.len
-//@   ensures sEnds(l) && fresh(l.tail) && l.tail.Value == v && l.len == old(l.len) + 1
-//@   ensures old(l.len) > 0 ==> old(l.tail).next == l.tail
+//@   ghost n0 = l.nodes
+//@   requires sSeq(l) && l.len < 9223372036854775807
+//@   modifies anyof(SNode.next), l.head, l.tail, l.len, l.nodes
+//@   ensures sSeq(l) && l.len == old(l.len) + 1 && fresh(l.tail) && l.tail.Value == v && forall k in 0..old(l.len): l.nodes[k] == n0[k]
+
+//@ func SList.RemoveFront
+//@   noalloc
+//@   ghost n0 = l.nodes
+//@   requires sSeq(l)
+//@   modifies anyof(SNode.next), l.head, l.tail, l.len, l.nodes
+//@   ensures old(l.len) == 0 ==> (result == nil && l.len == 0)
+//@   ensures old(l.len) > 0 ==> (result == n0[0] && result.next == nil && l.len == old(l.len) - 1 && forall k in 0..l.len: l.nodes[k] == n0[k+1])
+//@   ensures sSeq(l)
+//@   at end:
+//@     ghost l.nodes = ite(old(l.len) > 0, seqdef k: n0[k+1], n0)
+
+//@ func SList.Remove
+//@   noalloc
+//@   ghost n0 = l.nodes
+//@   requires sSeq(l)
+//@   modifies anyof(SNode.next), l.head, l.tail, l.len, l.nodes
+//@   ensures !(0 <= i && i < old(l.len)) ==> (result == nil && l.len == old(l.len))
+//@   ensures (0 <= i && i < old(l.len)) ==> (result == n0[i] && result.next == nil && l.len == old(l.len) - 1 && (forall k in 0..i: l.nodes[k] == n0[k]) && (forall k in i..l.len: l.nodes[k] == n0[k+1]))
+//@   ensures sSeq(l)
+//@   loop 1:
+//@     invariant 0 <= index && index <= i && i < l.len && e == l.nodes[index] && (index == 0 ==> before == nil) && (index > 0 ==> before == l.nodes[index-1])
+//@     decreases i - index
+//@   at end:
+//@     ghost l.nodes = ite(0 <= i && i < old(l.len), seqdef k: ite(k < i, n0[k], n0[k+1]), n0)
+
+//@ func SList.InsertNodeAt
+//@   noalloc
+//@   ghost n0 = l.nodes
+//@   ghost done = false
+//@   requires sSeq(l) && sNew(l, e) && e.next == nil && l.len < 9223372036854775807
+//@   modifies anyof(SNode.next), l.head, l.tail, l.len, l.nodes
+//@   ensures sSeq(l) && l.len == old(l.len) + 1
+//@   ensures l.nodes[min(max(i, 0), old(l.len))] == e
+//@   ensures forall k in 0..old(l.len): l.nodes[ite(k < min(max(i, 0), old(l.len)), k, k + 1)] == n0[k]
+//@   loop 1:
+//@     invariant 0 <= index && index <= i - 1 && i < l.len && before == l.nodes[index]
+//@     decreases i - 1 - index
+//@   at after-call1:
+//@     ghost done = true
+//@   at after-call2:
+//@     ghost done = true
+//@   at end:
+//@     ghost l.nodes = ite(done, l.nodes, seqdef k: ite(k < i, n0[k], ite(k == i, e, n0[k-1])))
+
+//@ func SList.InsertAt
+//@   ghost n0 = l.nodes
+//@   requires sSeq(l) && l.len < 9223372036854775807
+//@   modifies anyof(SNode.next), l.head, l.tail, l.len, l.nodes
+//@   ensures sSeq(l) && l.len == old(l.len) + 1
+//@   ensures fresh(l.nodes[min(max(i, 0), old(l.len))]) && cast(SNode, l.nodes[min(max(i, 0), old(l.len))]).Value == v
+//@   ensures forall k in 0..old(l.len): l.nodes[ite(k < min(max(i, 0), old(l.len)), k, k + 1)] == n0[k]
 
 // ---------------------------------------------------------------------------------------------------------------
 // SkipList: memory-safety level contracts. The head tower s.head is an interior object of the list.
@@ -510,3 +580,17 @@ package listz
 //@     ghost cast(syncNode, result.head).lst = result
 //@     ghost result.n = 1
 //@     ghost result.last = result.head
+
+//@ spec sVal(p int) T = cast(SNode, p).Value
+//@ func SList.Swap
+//@   noalloc
+//@   requires sSeq(l)
+//@   modifies anyof(SNode.Value)
+//@   ensures (0 <= i && i < l.len && 0 <= j && j < l.len) ==> (sVal(l.nodes[i]) == old(sVal(l.nodes[j])) && sVal(l.nodes[j]) == old(sVal(l.nodes[i])))
+//@   ensures forall k in 0..l.len: (k != i && k != j) ==> sVal(l.nodes[k]) == old(sVal(l.nodes[k]))
+//@   ensures !(0 <= i && i < l.len && 0 <= j && j < l.len) ==> forall k in 0..l.len: sVal(l.nodes[k]) == old(sVal(l.nodes[k]))
+//@   loop 1:
+//@     invariant 0 <= index && index <= l.len && (index < l.len ==> ce == l.nodes[index]) && (index == l.len ==> ce == nil)
+//@     invariant (e1 != nil ==> (e1 == l.nodes[i] && i < index)) && (e1 == nil ==> index <= i)
+//@     invariant (e2 != nil ==> (e2 == l.nodes[j] && j < index)) && (e2 == nil ==> index <= j)
+//@     decreases l.len - index
